@@ -467,9 +467,14 @@ pub fn compute_entity_manifest(
                     // using static analysis
                     entity_manifest_from_expr(&typechecked_expr).map(|val| val.global_trie)
                 }
-                PolicyCheck::Irrelevant(_, _) => {
-                    // this policy is irrelevant, so we need no data
-                    Ok(RootAccessTrie::new())
+                PolicyCheck::Irrelevant(_, typechecked_expr) => {
+                    // The typechecker found this policy to be always false in
+                    // this environment, but the authorizer still evaluates it
+                    // against the sliced store: without the data it touches,
+                    // it could error or even become satisfied there (e.g.
+                    // `unless { action in Action::"group" }` when the action
+                    // entity is missing from the slice). Keep what it needs.
+                    entity_manifest_from_expr(&typechecked_expr).map(|val| val.global_trie)
                 }
 
                 #[expect(
